@@ -8,6 +8,8 @@
 package main
 
 import (
+	"sync/atomic"
+
 	"bytes"
 	"encoding/binary"
 	"encoding/json"
@@ -35,7 +37,7 @@ type PartySpec struct {
 }
 
 type StepSpec struct {
-	Op      string `json:"op"`                 // rinit, rresp, rdata, tun, kick, restart, cookie, setkey, age, ghost
+	Op      string `json:"op"`                 // rinit, rresp, rdata, tun, kick, restart, cookie, setkey, age, ghost, rinitkey
 	Party   int    `json:"party"`              // acting ref party (rinit, rresp, rdata) or addressed peer (tun, kick)
 	RespKey string `json:"resp_key,omitempty"` // rinit: "" = the device's key, "other" = another key S', "old" = the device's previous key
 	MacKey  string `json:"mac_key,omitempty"`  // rinit: "" = the device's key, "other" = the other key, "old" = the device's previous key
@@ -80,6 +82,7 @@ type Case struct {
 	Completed  int       `json:"completed"`
 	Refused    int       `json:"refused"`
 	DataOK     int       `json:"data_ok"`
+	Parked     int       `json:"parked"` // key changes that hit a handshake worker between consume and response
 	Slow       bool      `json:"slow,omitempty"`
 }
 
@@ -117,7 +120,33 @@ type dmsg struct {
 	mac1   [16]byte
 }
 
+// parker turns the device's log line between ConsumeMessageInitiation and SendHandshakeResponse
+// ("... - Received handshake initiation", RoutineHandshake) into a schedule-control point: when
+// armed, the handshake worker that logs it waits there until released.
+type parker struct {
+	armed   atomic.Bool
+	parked  chan struct{}
+	release chan struct{}
+}
+
+func newParker() *parker {
+	return &parker{parked: make(chan struct{}, 1), release: make(chan struct{})}
+}
+
+func (k *parker) logger() *device.Logger {
+	return &device.Logger{
+		Verbosef: func(format string, args ...any) {
+			if strings.HasSuffix(format, "Received handshake initiation") && k.armed.CompareAndSwap(true, false) {
+				k.parked <- struct{}{}
+				<-k.release
+			}
+		},
+		Errorf: func(format string, args ...any) {},
+	}
+}
+
 type runner struct {
+	park     *parker
 	w        *cosim.World
 	parties  []*party
 	sessions []*sess // creation order
@@ -195,7 +224,8 @@ func newRunner(sc Scenario, rng *rand.Rand) (*runner, error) {
 		r.parties = append(r.parties, p)
 		rps = append(rps, p.rp)
 	}
-	w, err := cosim.NewWorld(cosim.Config{Up: true, NoPriv: sc.NoPriv}, true, rps...)
+	r.park = newParker()
+	w, err := cosim.NewWorldLogger(cosim.Config{Up: true, NoPriv: sc.NoPriv}, true, r.park.logger(), rps...)
 	if err != nil {
 		return nil, err
 	}
@@ -422,7 +452,7 @@ func (r *runner) step(si int, sp StepSpec) {
 	so := StepObs{Si: si}
 	r.shiftTimes()
 	switch sp.Op {
-	case "rinit":
+	case "rinit", "rinitkey":
 		r.xid++
 		xid := r.xid
 		switch sp.Ts {
@@ -462,7 +492,52 @@ func (r *runner) step(si int, sp StepSpec) {
 		if mKid != rKid {
 			msg = ref.AppendMacs(append([]byte{}, msg[:ref.InitiationSize-32]...), mPub, nil)
 		}
-		out := r.w.Inject(p.rp.Addr, msg)
+		var out cosim.Out
+		newKid := 0
+		if sp.Op == "rinit" {
+			out = r.w.Inject(p.rp.Addr, msg)
+		} else {
+			// private_key= issued while the handshake worker sits between ConsumeMessageInitiation and
+			// SendHandshakeResponse; if the initiation never gets there, after the device has settled
+			priv := ref.NewPrivate()
+			cfg := fmt.Sprintf("private_key=%x\n", priv[:])
+			r.park.armed.Store(true)
+			r.w.Bind.Inject(sim.Dgram{From: p.rp.Addr, Data: msg})
+			done := false
+			for i := 0; i < 1500 && !done; i++ {
+				select {
+				case <-r.park.parked:
+					if err := r.w.Dev.IpcSet(cfg); err != nil {
+						r.c.Slow = true
+					}
+					r.park.release <- struct{}{}
+					r.c.Parked++
+					done = true
+				default:
+					// quiescent without having parked: the initiation was dropped before that point
+					if sim.Quiesce(r.w.Dev, r.w.Bind, r.w.Tun, 2*time.Millisecond) && r.park.armed.CompareAndSwap(true, false) {
+						if err := r.w.Dev.IpcSet(cfg); err != nil {
+							r.c.Slow = true
+						}
+						done = true
+					}
+				}
+			}
+			if !done {
+				r.c.Slow = true
+			}
+			out = r.w.Take()
+			r.prevPub, r.prevKid = r.w.DevPub, r.devKid
+			oldPub := r.w.DevPub
+			r.w.DevPriv, r.w.DevPub = priv, ref.PubOf(priv)
+			r.nKeys++
+			r.devKid = kidOther + r.nKeys
+			newKid = r.devKid
+			for _, se := range r.sessions {
+				se.stale = true
+			}
+			_ = oldPub
+		}
 		er, ir := 0, uint32(0)
 		for _, s := range out.Sent {
 			if len(s.Data) == ref.ResponseSize && s.Data[0] == ref.TypeResponse {
@@ -485,6 +560,9 @@ func (r *runner) step(si int, sp StepSpec) {
 		}
 		r.c.Handshakes++
 		so.Event = fmt.Sprintf("rinit %d %d %d %d %d %d %d %d %d %d", xid, p.kid, rKid, mKid, e, idx, p.tsCtr, p.refPskID, er, ir)
+		if sp.Op == "rinitkey" {
+			so.Event = fmt.Sprintf("rinitkey %d %d %d %d %d %d %d %d %d %d %d", xid, p.kid, rKid, mKid, e, idx, p.tsCtr, p.refPskID, er, ir, newKid)
+		}
 		r.observe(out, &so, nil)
 	case "rresp":
 		if sp.Of < 0 || sp.Of >= len(r.parties) {
@@ -728,11 +806,11 @@ func anyParty(r *rand.Rand, k int) PartySpec {
 func st(op string, party int) StepSpec { return StepSpec{Op: op, Party: party, Of: party} }
 
 func genScenario(r *rand.Rand, k int) Scenario {
-	tmpl := k % 21
-	main := anyParty(r, k/21+k)
+	tmpl := k % 22
+	main := anyParty(r, k/22+k)
 	pskParty := func() PartySpec { // a configured party whose device-side psk is NOT zero, or a mismatching one
 		l := []PartySpec{{"ok", "rand"}, {"pskmis", "rand"}, {"pskmis", "refzero"}, {"ok", "rand"}, {"pskmis", "zero"}, {"ok", "zero"}}
-		return l[(k/21)%len(l)]
+		return l[(k/22)%len(l)]
 	}
 	forged := []string{"garbage", "wrongkey", "wrongad", "oldad"}
 	switch tmpl {
@@ -807,12 +885,12 @@ func genScenario(r *rand.Rand, k int) Scenario {
 	case 12: // an unauthentic cookie reply before a retransmitted initiation and before a response
 		p := pick(r, okKinds)
 		return Scenario{Parties: []PartySpec{p}, Gen: "forged-cookie-initiator",
-			Steps: []StepSpec{st("kick", 0), {Op: "cookie", Party: 0, Of: 0, Kind: forged[(k/21)%4]}, st("kick", 0),
+			Steps: []StepSpec{st("kick", 0), {Op: "cookie", Party: 0, Of: 0, Kind: forged[(k/22)%4]}, st("kick", 0),
 				{Op: "cookie", Party: 0, Of: 0, Kind: forged[r.Intn(4)]}, st("rresp", 0), st("rdata", 0), st("rinit", 0), st("kick", 0)}}
 	case 13: // the same with the device as responder (receiver = index of its response = keypair index)
 		p := pick(r, okKinds)
 		return Scenario{Parties: []PartySpec{p, pick(r, outKinds)}, Gen: "forged-cookie-responder",
-			Steps: []StepSpec{st("rinit", 0), {Op: "cookie", Party: 1, Of: 0, Kind: forged[(k/21)%4]}, st("rinit", 0),
+			Steps: []StepSpec{st("rinit", 0), {Op: "cookie", Party: 1, Of: 0, Kind: forged[(k/22)%4]}, st("rinit", 0),
 				{Op: "cookie", Party: 0, Of: 0, Kind: forged[r.Intn(4)]}, st("kick", 0), st("rdata", 0), st("rinit", 0)}}
 	case 14: // an authentic cookie reply: MAC2 is then the MAC under that cookie, also across a restart
 		p := pick(r, okKinds)
@@ -829,7 +907,7 @@ func genScenario(r *rand.Rand, k int) Scenario {
 				st("tun", 0), st("setkey", 0), st("kick", 0), st("rresp", 0)}}
 	case 17: // peers configured first, the private key in a later set operation
 		steps := []StepSpec{st("setkey", 0), st("rinit", 0), st("rdata", 0), st("tun", 0), st("kick", 1), st("rresp", 1), st("rdata", 1)}
-		if (k/21)%2 == 1 {
+		if (k/22)%2 == 1 {
 			steps = []StepSpec{st("setkey", 0), st("tun", 0), st("rresp", 0), st("rdata", 0), st("rinit", 1), st("rdata", 1), st("tun", 1)}
 		}
 		return Scenario{Parties: []PartySpec{pskParty(), pick(r, okKinds)}, Gen: "peers-before-key", NoPriv: true, Steps: steps}
@@ -837,15 +915,28 @@ func genScenario(r *rand.Rand, k int) Scenario {
 		p := pick(r, okKinds)
 		steps := []StepSpec{st("kick", 0), {Op: "cookie", Party: 0, Of: 0, Kind: "authentic"}, {Op: "age", Kind: "short"}, st("kick", 0),
 			st("age", 0), st("kick", 0), st("rinit", 0), {Op: "cookie", Party: 0, Of: 0, Kind: "authentic"}, st("rinit", 0), st("age", 0), st("rinit", 0), st("kick", 0)}
-		if (k/21)%2 == 1 { // the cookie answers a response, expires, then the device initiates
+		if (k/22)%2 == 1 { // the cookie answers a response, expires, then the device initiates
 			steps = []StepSpec{st("rinit", 0), {Op: "cookie", Party: 0, Of: 0, Kind: "authentic"}, st("rinit", 0), st("age", 0), st("kick", 0),
 				st("rinit", 0), st("restart", 0), st("kick", 0), st("rresp", 0), st("rdata", 0)}
 		}
 		return Scenario{Parties: []PartySpec{p}, Gen: "cookie-expiry", Steps: steps}
 	case 19: // update_only for an unknown key configures nobody, also after a restart
-		return Scenario{Parties: []PartySpec{pick(r, okKinds), outKinds[(k/21)%2]}, Gen: "update-only-unknown-key",
+		return Scenario{Parties: []PartySpec{pick(r, okKinds), outKinds[(k/22)%2]}, Gen: "update-only-unknown-key",
 			Steps: []StepSpec{st("ghost", 1), st("rinit", 1), st("restart", 0), st("rinit", 1), st("rdata", 1), st("rinit", 0), st("rdata", 0),
 				st("ghost", 1), st("rinit", 1), st("tun", 0)}}
+	case 20: // the private key changes while an initiation is between consumption and response
+		first := StepSpec{Op: "rinitkey", Party: 0, Of: 0}
+		switch (k / 22) % 4 {
+		case 1:
+			first.Party, first.Of = 1, 1 // an unconfigured party: the initiation never gets that far
+		case 2:
+			first.RespKey = "other"
+		}
+		steps := []StepSpec{st("rinit", 0), st("rdata", 0), first, st("rdata", 0), st("tun", 0), st("rinit", 0), st("rdata", 0), st("tun", 0)}
+		if (k/22)%2 == 1 {
+			steps = []StepSpec{first, st("rdata", 0), st("rinit", 0), st("rdata", 0), st("kick", 0), st("rresp", 0), {Op: "rinitkey", Party: 0, Of: 0}, st("rinit", 0), st("rdata", 0)}
+		}
+		return Scenario{Parties: []PartySpec{pskParty(), outKinds[r.Intn(2)]}, Gen: "key-change-in-flight", Steps: steps}
 	default: // several peers, random interleaving
 		n := 2 + r.Intn(3)
 		var ps []PartySpec
@@ -894,6 +985,8 @@ func genScenario(r *rand.Rand, k int) Scenario {
 			case x < 95:
 				s.Op = "setkey"
 			case x < 96:
+				s.Op = "rinitkey"
+			case x < 97:
 				s.Op = "age"
 				if r.Intn(3) == 0 {
 					s.Kind = "short"
@@ -1011,7 +1104,7 @@ func writeShard(path string, cases []*Case) error {
 
 func main() {
 	seed := flag.Int64("seed", 1, "PRNG seed")
-	n := flag.Int("n", 84, "number of scenarios")
+	n := flag.Int("n", 88, "number of scenarios")
 	shards := flag.Int("shards", 8, "case files")
 	out := flag.String("out", "out/C03", "output directory")
 	replayIn := flag.String("replay", "", "JSON file with scenarios (parties + steps) to run")
